@@ -85,7 +85,21 @@ func c03Child(scPath string) int {
 		}
 	}
 	org.mu.Unlock()
-	if err := pr.applyConfig(site.Hubs); err != nil {
+	inputSeeds := site.Hubs
+	if sc.Cfg.UseHQ {
+		// crawl-HQ source: the HQ double hands out the generated seeds, there are no input seeds
+		hq, err := newFakeHQ(pr.nextSeq, func() { pr.lastActivity.Store(pr.nextSeq()) }, nil, 1)
+		if err != nil {
+			return 2
+		}
+		pr.Cfg.HQAddress = fmt.Sprintf("http://127.0.0.1:%d", hq.Port)
+		pr.Cfg.HQBatchSize = 4
+		for _, s := range site.Seeds {
+			hq.addSeed(s.URL, "", "")
+		}
+		inputSeeds = nil
+	}
+	if err := pr.applyConfig(inputSeeds); err != nil {
 		return 2
 	}
 	pr.perturb, pr.perturbSeed = 1, vc.DeriveSeed(sc.Seed, "C03", "perturb", sc.Index)
@@ -205,6 +219,10 @@ func c03Jobs(r *vc.Run) []c03Job {
 			MaxRedirect:         5,
 		}
 		sc := c03Scenario{Seed: r.Seed, Index: i, Cfg: cfg, UseProxy: (bits>>5)&1 == 1, Moment: moments[(i/1)%len(moments)], K: 1 + rng.Intn(6), Mode: []string{"api", "sigterm"}[rng.Intn(2)], NSeeds: 10 + rng.Intn(8)}
+		if i%7 == 6 { // crawl-HQ source on a diagonal of the matrix
+			sc.Cfg.UseHQ = true
+			sc.UseProxy = false
+		}
 		if sc.Moment == "paused-all" {
 			sc.K = 4 * cfg.Workers // every worker of the four stages has acknowledged
 		}
@@ -225,7 +243,7 @@ func c03(r *vc.Run) int {
 			bin = os.Getenv("VZ_BIN_RACE")
 		}
 		dir := filepath.Join(r.Scratch, fmt.Sprintf("c03-%d", i))
-		label := fmt.Sprintf("run%d[%s/%s/k%d proxy=%v async=%v limiter=%v workers=%d pool=%d noseencheck=%v]", i, j.sc.Moment, j.sc.Mode, j.sc.K, j.sc.UseProxy, j.sc.Cfg.WARCWriteAsync, j.sc.Cfg.RateLimit, j.sc.Cfg.Workers, j.sc.Cfg.WARCPoolSize, j.sc.Cfg.DisableSeencheck)
+		label := fmt.Sprintf("run%d[%s/%s/k%d hq=%v proxy=%v async=%v limiter=%v workers=%d pool=%d noseencheck=%v]", i, j.sc.Moment, j.sc.Mode, j.sc.K, j.sc.Cfg.UseHQ, j.sc.UseProxy, j.sc.Cfg.WARCWriteAsync, j.sc.Cfg.RateLimit, j.sc.Cfg.Workers, j.sc.Cfg.WARCPoolSize, j.sc.Cfg.DisableSeencheck)
 		res := runChild(bin, "pipe-c03", j.sc, dir, 150*time.Second)
 		m.mu.Lock()
 		m.Children++
@@ -235,6 +253,9 @@ func c03(r *vc.Run) int {
 		}
 		m.mu.Unlock()
 		cfgClass := fmt.Sprintf("proxy=%v/async=%v", j.sc.UseProxy, j.sc.Cfg.WARCWriteAsync)
+		if j.sc.Cfg.UseHQ {
+			cfgClass += "/hq"
+		}
 		combos.Add(fmt.Sprintf("%s/%s/%s", j.sc.Moment, j.sc.Mode, cfgClass))
 		var stuck struct {
 			Frames []string `json:"frames"`
@@ -268,6 +289,9 @@ func c03(r *vc.Run) int {
 			}
 			// files left behind
 			warcDir := filepath.Join(dir, "jobs", "j", "warcs")
+			if j.sc.Cfg.UseHQ {
+				warcDir = filepath.Join(dir, "jobs", "j", "warcs")
+			}
 			open, _ := filepath.Glob(filepath.Join(warcDir, "*.open"))
 			if len(open) > 0 {
 				r.Violation("open-warc-left-after-stop", fmt.Sprintf("%s: %d WARC file(s) still carry the .open suffix after the stop returned: %v", label, len(open), baseNames(open)), map[string]any{"scenario": j.sc})
@@ -301,7 +325,7 @@ func c03(r *vc.Run) int {
 	}
 	return r.Finish("fault_enumeration", cov, []string{
 		"'bounded time' is logical: origin delays <= 0.8 s and at most one retry, so 20 s after the stop request the only legitimate waits are gone; a process that shows no hook event and no open origin request over three samples is stuck (violation), one that still moves at the 150 s watchdog is inconclusive",
-		"crawl-HQ source is exercised by C15's runs, not in this matrix",
+		"crawl-HQ source (against the HQ double) on every seventh run of the matrix",
 	}, 12)
 }
 
